@@ -202,6 +202,35 @@ impl Val for ZstA8 {
 }
 pod_val!(Option<u32>, if nd::bool() { Some(nd::u32()) } else { None });
 
+/// owned string slice: one of three fixed contents, chosen symbolically
+pub const STRS: [&str; 3] = ["a", "bc", ""];
+pub fn str_id(s: &str) -> u8 {
+    if s == STRS[0] {
+        0
+    } else if s == STRS[1] {
+        1
+    } else if s == STRS[2] {
+        2
+    } else {
+        255
+    }
+}
+impl Val for Box<str> {
+    type Snap = u8;
+    const DROPPABLE: bool = false;
+    fn sym() -> Self {
+        let k = nd::u8();
+        nd::assume(k < 3);
+        Box::from(STRS[k as usize])
+    }
+    fn snap(&self) -> u8 {
+        str_id(self)
+    }
+    fn same_value(a: &u8, b: &u8) -> bool {
+        a == b
+    }
+}
+
 /// over-aligned: 16 bytes, align 16
 #[repr(C, align(16))]
 #[derive(Clone, Copy, PartialEq, Eq, Debug, serde::Serialize, serde::Deserialize)]
